@@ -222,3 +222,75 @@ def _b_ga(f, ctx):
     a._search_observers = list(f.get("_search_observers", []))
     a.g_checked = f.get("g_checked", False)
     return a
+
+# ---------------------------------------------------------------------------------------------------------------
+# 5. every configured budget becomes a stopping condition (the factory side of "every configured stopping condition")
+from pyvc.contracts import global_var as _gv  # noqa: E402
+
+klass("pynguin.configuration:StoppingConfiguration", fields={
+    "maximum_iterations": "int", "maximum_statement_executions": "int", "maximum_test_executions": "int",
+    "maximum_search_time": "int", "maximum_coverage": "int", "maximum_coverage_plateau": "int",
+    "minimum_coverage": "int", "minimum_plateau_iterations": "int", "maximum_memory": "int"})
+klass("pynguin.configuration:Configuration", fields={"stopping": "StoppingConfiguration"})
+_gv("pynguin.configuration.configuration", "Configuration")
+klass(f"{SC}:MaxSearchTimeStoppingCondition", fields={"_start_time": "int", "_max_seconds": "int"})
+klass(f"{SC}:MaxCoverageStoppingCondition", fields={"__max_coverage": "int", "__current_coverage": "int"})
+klass(f"{SC}:CoveragePlateauStoppingCondition",
+      fields={"__previous_coverage": "float", "__unchanged_iterations": "int", "__iterations": "int"})
+klass(f"{SC}:MinimumCoveragePlateauStoppingCondition",
+      fields={"__minimum_coverage": "int", "__plateau_iterations": "int", "__last_coverage": "int", "__iterations": "int"})
+klass(f"{SC}:MaxMemoryStoppingCondition", fields={"_memory_limit_bytes": "int", "_memory_usage": "int"})
+klass(f"{SC}:RemoteMaxStatementExecutionsObserver", fields={})
+klass("pynguin.ga.generationalgorithmfactory:GenerationAlgorithmFactory", fields={})
+
+
+F = "pynguin.ga.generationalgorithmfactory"
+contract(f"{F}:GenerationAlgorithmFactory.get_stopping_conditions", returns="list[StoppingCondition]",
+         globals_in={"pynguin.configuration.configuration": "Configuration"},
+         raises={"AssertionError": "config.configuration.stopping.maximum_iterations == 0 or config.configuration.stopping.maximum_statement_executions == 0 or "
+                                   "config.configuration.stopping.maximum_test_executions == 0 or config.configuration.stopping.maximum_search_time == 0 or "
+                                   "config.configuration.stopping.maximum_coverage < 0 or config.configuration.stopping.maximum_coverage_plateau == 0 or "
+                                   "(config.configuration.stopping.maximum_coverage_plateau < 0 and False) or config.configuration.stopping.minimum_coverage <= 0 or "
+                                   "(config.configuration.stopping.minimum_coverage < 100 and config.configuration.stopping.minimum_plateau_iterations <= 0)"},
+         ensures=[
+             f"implies(config.configuration.stopping.maximum_iterations >= 0, any(typeis(c, '{MI}') and c._max_iterations == config.configuration.stopping.maximum_iterations "
+             "and c._num_iterations == 0 for c in result))",
+             f"implies(config.configuration.stopping.maximum_statement_executions >= 0, any(typeis(c, '{MS}') and "
+             "c._max_executed_statements == config.configuration.stopping.maximum_statement_executions and c._num_executed_statements == 0 for c in result))",
+             f"implies(config.configuration.stopping.maximum_test_executions >= 0, any(typeis(c, '{MT}') and "
+             "c._max_test_executions == config.configuration.stopping.maximum_test_executions and c._num_executed_tests == 0 for c in result))",
+             "implies(config.configuration.stopping.maximum_search_time >= 0, any(typeis(c, 'MaxSearchTimeStoppingCondition') and "
+             "c._max_seconds == config.configuration.stopping.maximum_search_time for c in result))",
+             "len(result) >= 1",
+         ])
+
+NATIVE_HELPERS["config"] = __import__("pynguin.configuration", fromlist=["x"])
+
+
+@builder("GenerationAlgorithmFactory")
+def _b_gaf(f, ctx):
+    import pynguin.ga.generationalgorithmfactory as gaf
+    return gaf.TestSuiteGenerationAlgorithmFactory.__new__(gaf.TestSuiteGenerationAlgorithmFactory)
+
+
+@builder("StoppingConfiguration")
+def _b_stopcfg(f, ctx):
+    import pynguin.configuration as config
+    s_ = config.StoppingConfiguration()
+    for k_, v_ in f.items():
+        setattr(s_, k_, v_)
+    return s_
+
+
+@builder("Configuration")
+def _b_cfg(f, ctx):
+    import pynguin.configuration as config
+    c_ = config.Configuration(project_path="", module_name="",
+                              test_case_output=config.TestCaseOutputConfiguration(output_path=""))
+    c_.stopping = f.get("stopping") or config.StoppingConfiguration()
+    return c_
+
+
+for _n in ("MaxSearchTimeStoppingCondition", "MaxCoverageStoppingCondition", "CoveragePlateauStoppingCondition",
+           "MinimumCoveragePlateauStoppingCondition", "MaxMemoryStoppingCondition"):
+    pass
